@@ -453,4 +453,5 @@ func runC01(ctx *core.Ctx) {
 		c01Full1.BFS(ctx, 1, 2_000_000)
 		c01Full.BFS(ctx, 2, 6_000_000)
 	}
+	pmReportReached(ctx)
 }
